@@ -40,7 +40,9 @@ for bid in ids:
         _random.seed(rng.randrange(10**9))
         client_mod.time.time = lambda: 1.7e9 + rng.randrange(10**6)      # a later set-up, at a different time
         try:
-            b = dry(beacon_id=bid, user="bob", computer="X", arch="x86")
+            # the other arguments vary too: a given / generated pid, names, architecture, address - the keys follow the id only
+            b = dry(beacon_id=bid, user="bob", computer="X", arch="x86", **rng.choice([{}, {"pid": 4242}, {"pid": 1, "process": "p.exe"},
+                                                                                            {"internal_ip": "10.9.8.7"}]))
         finally:
             client_mod.time.time = _real_time
         ok = want <= 0x7FFFFFFF and a.beacon_id == want and a.beacon_id % 2 == 0 and 0 <= a.beacon_id < 2**31 \
@@ -49,7 +51,7 @@ for bid in ids:
             and a.metadata.bid == a.beacon_id and a.c2http.aes_key == a.aes_key and a.c2http.hmac_key == a.hmac_key
         if ok and a.beacon_id != bid:
             # the keys belong to the id that is presented: asking for that id directly gives the same keys
-            c_ = dry(beacon_id=a.beacon_id, user="carol")
+            c_ = dry(beacon_id=a.beacon_id, user="carol", pid=rng.choice([None, 77]))
             ok = (c_.beacon_id, c_.aes_rand, c_.aes_key, c_.hmac_key) == (a.beacon_id, a.aes_rand, a.aes_key, a.hmac_key)
         got = a.beacon_id
     except ValueError as ex:
